@@ -47,7 +47,7 @@ WARM = (("store", "p1", "A", None), ("store", "p2", "B", None), ("store", "p3", 
         ("delete", "p1"), ("delete", "p2"), ("delete", "p3"), ("tag", "p1", "N"), ("delete", "p1"))
 
 
-def init_tree(name, pristine=False, p=None):
+def init_tree(name, pristine=False, p=None, bystander=False):
     c = ctx()
     root = os.path.join(common.scratch(), "init")
     restore(root, {})
@@ -58,7 +58,7 @@ def init_tree(name, pristine=False, p=None):
             cls, _ = O.run(store, op, c)
             if cls != "ok":
                 raise common.HarnessError("warm-up %r failed: %s" % (op, cls))
-    for op in INIT[name]:
+    for op in tuple(INIT[name]) + ((("store", "p3", "B", None), ("store_meta", "p3", None, "v0")) if bystander else ()):
         cls, _ = O.run(store, op, c)
         if cls != "ok":
             raise common.HarnessError("initial history %r failed: %s" % (op, cls))
@@ -69,7 +69,8 @@ def make_scenario(spec):
     """spec: dict(name, init, threads={T1:[ops],..}, mode, pristine, followups, pids, formats, split)"""
     threads = {k: [tuple(op) for op in v] for k, v in spec["threads"].items()}
     p = P11 if spec.get("p") == "1x1" else P
-    sc = lin.LinScenario(spec["name"], init_tree(spec["init"], spec.get("pristine", False), p), threads, p, ctx(),
+    sc = lin.LinScenario(spec["name"], init_tree(spec["init"], spec.get("pristine", False), p, spec.get("bystander", False)),
+                         threads, p, ctx(),
                          spec.get("pids", ("p1", "p2", "p3")), spec.get("formats", ()), spec.get("mode", "th"),
                          spec.get("split", False),
                          [tuple(op) for op in spec.get("followups", ())])
@@ -99,6 +100,70 @@ def fault_classes(spec, thread):
     return out
 
 
+class ImageCollector:
+    """Observer that keeps every distinct kernel-visible tree seen after a scheduling step (a crash image of the
+    whole process while several calls are in flight)."""
+    wants_inc = True
+
+    def __init__(self):
+        self.images = {}
+        self.inc = None
+
+    def __call__(self, prev, tree, thread, op, dirty):
+        from . import engine_f
+        d = self.inc.digest()
+        if d not in self.images:
+            self.images[d] = engine_f.tree_of(dict(self.inc.files), set(self.inc.dirs))
+        return ()
+
+
+NOTFOUND = {"PidRefsDoesNotExist", "RefsFileExistsButCidObjMissing", "OrphanPidRefsFileFound",
+            "PidNotFoundInCidRefsFile", "CidRefsFileNotFound", "PidRefsFileNotFound"}
+
+
+def crash_oracle(sc, spec, tree, root):
+    """C10 for a crash image taken while the scenario's calls were in flight: bystander p3 untouched, every involved
+    pid served exact bytes or a not-found class, and delete_object + store_object makes it retrievable again."""
+    from . import i9
+    c = sc.ctx
+    out = []
+    docs, cids = i9.allowed_sets(c, sc.init_tree)
+    for where, what in i9.check_tree(tree, sc.layout.algo, docs, cids):
+        out.append("crash image: " + what)
+    restore(root, tree)
+    env.set_root(root)
+    store = make_store(root, sc.p, {"USE_MULTIPROCESSING": "False"})
+    if spec.get("bystander"):
+        b = O.run(store, ("retrieve", "p3"), c)
+        m = O.run(store, ("retrieve_meta", "p3", None), c)
+        if b[0] != "ok" or b[1] != c.inputs.data["B"] or m[0] != "ok" or m[1] != c.docs.data["v0"]:
+            out.append("the bystander's object or metadata differs in a crash image")
+    involved = sorted({op[1] for prog in sc.threads.values() for op in prog if op[0] in ("store", "tag", "delete")})
+    complete = [c.inputs.data[n] for n in c.inputs.data]
+    for pid in involved:
+        r = O.run(store, ("retrieve", pid), c)
+        if r[0] == "ok":
+            if r[1] not in complete:
+                out.append("a pid is served bytes that are no complete content in a crash image")
+        elif r[0] not in NOTFOUND:
+            out.append("retrieve_object raises %s in a crash image" % r[0])
+    for pid in involved:
+        d = O.run(store, ("delete", pid), c)
+        if d[0] not in ("ok", "PidRefsDoesNotExist"):
+            out.append("recovery: delete_object raises %s" % d[0])
+            continue
+        s = O.run(store, ("store", pid, "A", None), c)
+        g = O.run(store, ("retrieve", pid), c) if s[0] == "ok" else s
+        if s[0] != "ok" or g[0] != "ok" or g[1] != c.inputs.data["A"]:
+            out.append("recovery: store_object after delete_object does not make the pid retrievable (%s)" % (
+                s[0] if s[0] != "ok" else g[0]))
+    if spec.get("bystander"):
+        b = O.run(store, ("retrieve", "p3"), c)
+        if b[0] != "ok" or b[1] != c.inputs.data["B"]:
+            out.append("recovery of the interrupted pids disturbed the bystander")
+    return sorted(set(out))
+
+
 def run_job(spec):
     """Explore one scenario exhaustively and judge every distinct terminal observation.
     Returns a picklable summary."""
@@ -108,7 +173,9 @@ def run_job(spec):
         sc = make_scenario(spec)
         root = os.path.join(common.scratch(), "store")
         observer = None
-        if spec.get("observer") == "removal":
+        if spec.get("observer") == "images":
+            observer = ImageCollector()
+        elif spec.get("observer") == "removal":
             from .i9 import make_removal_observer
             observer = make_removal_observer(sc)
         elif spec.get("observer"):
@@ -117,6 +184,16 @@ def run_job(spec):
         r = engine_t.explore(sc, root, bound=spec.get("bound"), observer=observer,
                              max_exec=spec.get("max_exec"), time_cap=spec.get("time_cap"),
                              reduce=spec.get("reduce", True))
+        image_violations = []
+        n_images = 0
+        if isinstance(observer, ImageCollector):
+            n_images = len(observer.images)
+            seen_v = set()
+            for tree in observer.images.values():
+                for v in crash_oracle(sc, spec, tree, root):
+                    if v not in seen_v:
+                        seen_v.add(v)
+                        image_violations.append(v)
         cache = {}
         verdicts = []
         for term, sched in r["terminals"].items():
@@ -141,6 +218,7 @@ def run_job(spec):
                 "sequential_terminals": len(seq), "capped": r["capped"], "wall": time.time() - t0,
                 "passes": r.get("passes"), "executions_all_passes": r.get("executions_all_passes"),
                 "independent_steps_not_branched": r.get("independent_steps_not_branched"),
+                "crash_images": n_images, "image_violations": image_violations,
                 "step_violations": [(v, ch) for v, ch in r["step_violations"][:20]],
                 "n_step_violations": len(r["step_violations"])}
     except common.HarnessError as e:
